@@ -347,6 +347,21 @@ func runCheck(pc *PropConfig, tier string, seed int, writeBaseline, verbose bool
 			records = append(records, rec)
 		}
 	}
+	// extra built-in checkers
+	for _, ex := range pc.Extra {
+		er := runExtra(ex, pc, l, tier, seed, replayDir)
+		obligations += er.obligations
+		discharged += er.discharged
+		out.violations = append(out.violations, er.violations...)
+		out.known = append(out.known, er.known...)
+		out.engineErr = append(out.engineErr, er.errors...)
+		assumptions = append(assumptions, er.assumptions...)
+		samples = append(samples, er.samples...)
+		records = append(records, er.records...)
+		for _, n := range er.names {
+			newBaseline = append(newBaseline, n)
+		}
+	}
 	// a function under contract is gone (renamed / restructured): its obligations cannot be generated. The
 	// property-level scenario replays decide whether the behaviour is still there.
 	var standins []map[string]any
@@ -361,21 +376,6 @@ func runCheck(pc *PropConfig, tier string, seed int, writeBaseline, verbose bool
 			if res.reproduced {
 				out.violations = append(out.violations, fmt.Sprintf("VIOLATION property=%s replay=%s scenario=%s", pc.ID, res.file, sc))
 			}
-		}
-	}
-	// extra built-in checkers
-	for _, ex := range pc.Extra {
-		er := runExtra(ex, pc, l, tier, seed, replayDir)
-		obligations += er.obligations
-		discharged += er.discharged
-		out.violations = append(out.violations, er.violations...)
-		out.known = append(out.known, er.known...)
-		out.engineErr = append(out.engineErr, er.errors...)
-		assumptions = append(assumptions, er.assumptions...)
-		samples = append(samples, er.samples...)
-		records = append(records, er.records...)
-		for _, n := range er.names {
-			newBaseline = append(newBaseline, n)
 		}
 	}
 	// samples
